@@ -133,15 +133,39 @@ func verifOracle(evs []verifEvent, v int) bool {
 func VerifIsAffected() {
 	eco := verifrt.ParamStr("eco")
 	k := verifrt.Param("k")
-	evs, events := verifRange(eco, k, "e")
-	verifrt.Assume(verifWellFormed(evs))
+	var evs []verifEvent
+	var events []osvschema.Event
+	if k == 0 {
+		// fixed shape [introduced x, fixed y], x < y
+		bi, bf := verifrt.Byte("e-introduced"), verifrt.Byte("e-fixed")
+		verifrt.Assume(verifrt.And(verifrt.And(bi >= '1', bi <= '9'), verifrt.And(bf >= '1', bf <= '9')))
+		verifrt.Assume(bi < bf)
+		evs = []verifEvent{{kind: kIntroduced, d: int(bi - '0')}, {kind: kFixed, d: int(bf - '0')}}
+		events = []osvschema.Event{{Introduced: verifVersion(eco, bi)}, {Fixed: verifVersion(eco, bf)}}
+	} else {
+		evs, events = verifRange(eco, k, "e")
+		verifrt.Assume(verifWellFormed(evs))
+	}
+	// optionally a second range of the same affected entry (ranges may overlap or nest)
+	var evs2 []verifEvent
+	var events2 []osvschema.Event
+	simple := verifrt.Param("ranges") == 2
+	if simple {
+		// [introduced x, fixed y] with x < y; the other dimensions (range type, name/ecosystem
+		// match, explicit list, pre-release query) are those of the one-range runs and fixed here
+		bi, bf := verifrt.Byte("f-introduced"), verifrt.Byte("f-fixed")
+		verifrt.Assume(verifrt.And(verifrt.And(bi >= '1', bi <= '9'), verifrt.And(bf >= '1', bf <= '9')))
+		verifrt.Assume(bi < bf)
+		evs2 = []verifEvent{{kind: kIntroduced, d: int(bi - '0')}, {kind: kFixed, d: int(bf - '0')}}
+		events2 = []osvschema.Event{{Introduced: verifVersion(eco, bi)}, {Fixed: verifVersion(eco, bf)}}
+	}
 
 	// the queried version: <d>.0(.0) with a symbolic digit, or a pre-release of zero, which sorts
 	// below every <d>.0(.0) but after the literal "0" that precedes every version
 	var vb byte
 	var v int
 	queried := ""
-	if verifrt.Choice("prerelease-of-zero", 2) == 1 {
+	if !simple && verifrt.Choice("prerelease-of-zero", 2) == 1 {
 		queried = map[string]string{"npm": "0.0.0-alpha.1", "Maven": "0-alpha-1", "PyPI": "0a1"}[eco]
 		v = 0
 	} else {
@@ -151,10 +175,13 @@ func VerifIsAffected() {
 		queried = verifVersion(eco, vb)
 	}
 
-	rtype := []string{"ECOSYSTEM", "SEMVER", "GIT"}[verifrt.Choice("rtype", 3)]
-	nameMatch := verifrt.Choice("name", 2) == 0
-	ecoMatch := verifrt.Choice("eco", 2) == 0
-	listed := verifrt.Choice("listed", 2) == 1
+	rtype, nameMatch, ecoMatch, listed := "ECOSYSTEM", true, true, false
+	if !simple {
+		rtype = []string{"ECOSYSTEM", "SEMVER", "GIT"}[verifrt.Choice("rtype", 3)]
+		nameMatch = verifrt.Choice("name", 2) == 0
+		ecoMatch = verifrt.Choice("eco", 2) == 0
+		listed = verifrt.Choice("listed", 2) == 1
+	}
 
 	aff := osvschema.Affected{}
 	aff.Package.Name = "pkg"
@@ -173,6 +200,9 @@ func VerifIsAffected() {
 		listedHit = verifrt.StrEq(verifVersion(eco, lb), queried)
 	}
 	aff.Ranges = []osvschema.Range{{Type: osvschema.RangeType(rtype), Events: events}}
+	if evs2 != nil {
+		aff.Ranges = append(aff.Ranges, osvschema.Range{Type: osvschema.RangeType(rtype), Events: events2})
+	}
 	vuln := &osvschema.Vulnerability{ID: "V-1", Affected: []osvschema.Affected{aff}}
 	pkg := &extractor.Package{Name: "pkg", Version: queried, Extractor: verifExtractor{eco}}
 
@@ -184,6 +214,9 @@ func VerifIsAffected() {
 		want = listedHit
 		if typeOK {
 			want = verifrt.Or(want, verifOracle(evs, v))
+			if evs2 != nil {
+				want = verifrt.Or(want, verifOracle(evs2, v))
+			}
 		}
 	}
 	verifrt.Reach("evaluated")
